@@ -653,7 +653,10 @@ func TestVerifC09(t *testing.T) {
 	}
 
 	racePassDeadline := time.Now().Add(time.Duration(r.Pick(50, 240)) * time.Second)
-	waitRace := c09StartRacePass(racePassDeadline)
+	waitRace := func() (string, int, string, error) { return "RACE-PASS disabled", 0, "", nil }
+	if os.Getenv("VERIF_C09_NORACE") == "" {
+		waitRace = c09StartRacePass(racePassDeadline)
+	}
 
 	var total explore.Result
 	total.BlockedByKind = map[string]int64{}
@@ -679,7 +682,7 @@ func TestVerifC09(t *testing.T) {
 		skipped := 0
 		// biggest programs first is not known a priori; keep enumeration order
 		err := explore.RunShards(explore.ShardSpec{
-			Test: "TestVerifC09", Items: len(ph.Items), Procs: 16,
+			Test: "TestVerifC09", Items: len(ph.Items), Procs: c09Procs(),
 			Env: []string{fmt.Sprintf("VERIF_C09_PHASE=%d", pi), fmt.Sprintf("VERIF_C09_DEADLINE=%d", budgetDeadline.UnixMilli()),
 				"VERIF_C09_TMP=" + filepath.Join(work, "tmp")},
 		}, func(shard int, line []byte) {
@@ -820,6 +823,13 @@ func TestVerifC09(t *testing.T) {
 		r.Sample(map[string]interface{}{"note": "no conflicting item was sampled", "executions": total.Executions})
 	}
 	r.Finish(exhaustive && len(harness) == 0)
+}
+
+func c09Procs() int {
+	if n, err := strconv.Atoi(os.Getenv("VERIF_C09_PROCS")); err == nil && n > 0 {
+		return n
+	}
+	return 16
 }
 
 func c09Replay(r *ev.Run) {
